@@ -376,3 +376,8 @@ func ip4EndDef(buf []byte, p int) int {
 func digsAt(buf []byte, p, l int) bool {
 	return (l < 1 || dig(buf, p)) && (l < 2 || dig(buf, p+1)) && (l < 3 || dig(buf, p+2))
 }
+
+// bytesEq: same length and same bytes
+func bytesEq(a, b []byte) bool {
+	return len(a) == len(b) && forall(0, len(b), func(k int) bool { return a[k] == b[k] })
+}
